@@ -16,6 +16,9 @@ import (
 	"verifharness/internal/rt"
 )
 
+type namedStr string
+type namedBytes []byte
+
 // scramble mutates every byte slice and map reachable from v (the output), to expose shallow copies:
 // the input must not change when the output is mutated.
 func scramble(v reflect.Value, depth int) {
@@ -309,10 +312,12 @@ func TestC10(t *testing.T) {
 			N  interface{}
 			PI interface{}
 			L  []interface{}
+			M  map[string]interface{}
 		}
 		ts := time.Unix(int64(cr.Intn(2_000_000_000)), 0).UTC()
 		mk := func() *outer {
-			return &outer{I: inner{S: "s", P: "p", N: 7}, T: ts, N: 42, PI: &inner{S: "s", P: "p", N: 8}, L: []interface{}{inner{S: "s", P: "p", N: 9}, 3.5, ts}}
+			return &outer{I: inner{S: "s", P: "p", N: 7}, T: ts, N: 42, PI: &inner{S: "s", P: "p", N: 8}, L: []interface{}{inner{S: "s", P: "p", N: 9}, 3.5, ts},
+				M: map[string]interface{}{"role": namedStr("admin"), "n": 5, "t": ts, "raw": namedBytes("x"), "nil": nil}}
 		}
 		in, twin := mk(), mk()
 		cfg := genCfgEnc(cr)
@@ -334,7 +339,11 @@ func TestC10(t *testing.T) {
 			for _, e := range o.L {
 				s += fmt.Sprintf("%T ", e)
 			}
-			return s + "]"
+			s += "] M={"
+			for _, k := range []string{"role", "n", "t", "raw", "nil"} {
+				s += fmt.Sprintf("%s:%T ", k, o.M[k])
+			}
+			return s + "}"
 		}
 		if types(got) != types(twin) {
 			run.Violation("shape:type-changed:iface-fields", fmt.Sprintf("values held in interface-typed fields changed their dynamic type: input %s, forwarded %s", types(twin), types(got)), map[string]any{"config": cfg.String()})
